@@ -409,6 +409,19 @@ def run(ctx, col: Collector):
             if o.rule in ('C10-pure', 'C10-derived', 'C10-cache') and ('dbml' in o.construct.lower() or o.status != 'discharged' or 'Database' in o.construct):
                 n += 1
                 col.obs.append(type(o)(col.prop, 'C02-current', o.construct, o.status, o.msg, o.file, o.line, o.extra))
+        # what the writer leaves out / writes verbatim, the reader must fill in / take verbatim in the same way:
+        #  - the schema of a public enum is elided by the writer, so a bare type name must bind to the public enum (C05-enum);
+        #  - names, expressions and their tokens are written verbatim, so the reader's tokens must return the text verbatim (C01-lex)
+        sub = ctx.sub('c05', col.prop)
+        for o in sub.obs:
+            if o.rule == 'C05-enum' or (o.rule == 'C05-schema'):
+                n += 1
+                col.obs.append(type(o)(col.prop, 'C02-binding', o.construct, o.status, o.msg, o.file, o.line, o.extra))
+        sub = ctx.sub('c01', col.prop)
+        for o in sub.obs:
+            if o.rule == 'C01-lex' and (o.construct.startswith(('expression', 'name:', 'string')) or o.status != 'discharged'):
+                n += 1
+                col.obs.append(type(o)(col.prop, 'C02-token', o.construct, o.status, o.msg, o.file, o.line, o.extra))
         col.floor('C02-text', 'shared free-text and comment obligations', n, 40)
     guarded(col, 'C02-text', 'shared', shared)
 
